@@ -101,6 +101,25 @@ type c05Kind struct {
 	Secret string
 }
 
+// c05Never: per kind, a state that must not be reached by a requester with the given bitmap whatever the
+// reply says (effects the differential comparison cannot see because the fully privileged run has them too).
+var c05Never = map[string]func(root string, bits [8]byte) string{
+	// a "rename" whose new name contains a path separator is a move: without the move privilege the entry
+	// stays in its folder
+	"rename-folder-new-name-with-separator": func(root string, bits [8]byte) string {
+		if _, err := os.Stat(filepath.Join(root, "other", "dir2")); err == nil && !ref.BitSet(bits, ref.PMoveFolder) {
+			return "the folder 'dir' is now 'other/dir2' although the requester may not move folders"
+		}
+		return ""
+	},
+	"rename-file-new-name-with-separator": func(root string, bits [8]byte) string {
+		if _, err := os.Stat(filepath.Join(root, "other", "g.txt")); err == nil && !ref.BitSet(bits, ref.PMoveFile) {
+			return "the file 'f.txt' is now 'other/g.txt' although the requester may not move files"
+		}
+		return ""
+	},
+}
+
 func obf(s string) []byte { return ref.Obfuscate([]byte(s)) }
 
 var c05Kinds = []c05Kind{
@@ -253,6 +272,12 @@ var c05Kinds = []c05Kind{
 	}, ""},
 	{"rename-folder", []int{ref.PRenameFolder}, func(x c05Ctx) ref.Tx {
 		return ref.Tx{Type: ref.TSetFileInfo, Fields: []ref.Fld{ref.FS(ref.FFileName, "dir"), ref.FS(ref.FFileNewName, "dir2")}}
+	}, ""},
+	{"rename-folder-new-name-with-separator", []int{ref.PRenameFolder}, func(x c05Ctx) ref.Tx {
+		return ref.Tx{Type: ref.TSetFileInfo, Fields: []ref.Fld{ref.FS(ref.FFileName, "dir"), ref.FS(ref.FFileNewName, "other/dir2")}}
+	}, ""},
+	{"rename-file-new-name-with-separator", []int{ref.PRenameFile}, func(x c05Ctx) ref.Tx {
+		return ref.Tx{Type: ref.TSetFileInfo, Fields: []ref.Fld{ref.FS(ref.FFileName, "f.txt"), ref.FS(ref.FFileNewName, "other/g.txt")}}
 	}, ""},
 	{"move-file", []int{ref.PMoveFile}, func(x c05Ctx) ref.Tx {
 		return ref.Tx{Type: ref.TMoveFile, Fields: []ref.Fld{ref.FS(ref.FFileName, "f.txt"), ref.F(ref.FFileNewPath, ref.PathBytes("other"))}}
@@ -453,6 +478,7 @@ type c05Obs struct {
 	TgtInbox  string
 	Snapshot  string
 	Leak      bool
+	Never     string // non-empty: a state was reached that this requester must never reach (see c05Never)
 }
 
 func maskFlags(t ref.Tx) ref.Tx {
@@ -593,6 +619,9 @@ func c05Exec(w *explore.Worker, k c05Kind, bits [8]byte, rc c05Case) (o c05Obs, 
 		}
 		o.ObsInbox = canonTxs(obs.New())
 		o.TgtInbox = canonTxs(tgt.New())
+		if f := c05Never[k.Name]; f != nil {
+			o.Never = f(wd.FileRoot, bits)
+		}
 		after := c05Snapshot(wd, obs, x.uID)
 		if after == before {
 			o.Snapshot = "unchanged"
@@ -663,6 +692,9 @@ func c05Check(w *explore.Worker, c c05Case) {
 		if !ref.BitSet(c.Bits, g) {
 			held = false
 		}
+	}
+	if o.Never != "" {
+		fail("effect-without-privilege", o.Never)
 	}
 	if !held {
 		if o.ReplyNil || o.ReplyErr == 0 {
